@@ -55,11 +55,18 @@ REGISTRY = {
 
 
 RULE_FUT = (
-    "each evaluation = one generated script (JSON, see samples) of set_callback/execute/done/result calls from "
-    "2-4 simulated threads on one FutureResult, run once under one seeded schedule with pre-emption at every "
-    "source line of threadpool.py; distinct = distinct digest of (context-switch sequence, history); "
-    "non-trivial = at least one context switch and the task body ran"
+    "each evaluation = one generated script (JSON, see samples): three quarters are set_callback/execute/done/result calls from "
+    "2-4 simulated threads on one bare FutureResult, one quarter are thread-pool programs whose client threads register "
+    "returning / raising / functools.partial callbacks on the futures of pooled tasks (the callback then runs on a pool worker); "
+    "each is run once under one seeded schedule with pre-emption at every source line of threadpool.py; "
+    "distinct = distinct digest of (context-switch sequence, history); non-trivial = at least one context switch and the task body ran"
 )
+
+
+def _c16_multi(body=None):
+    from . import futcheck, poolcheck
+
+    return runner.MultiScenario("future+pool", [(3, "future", futcheck.FutScenario()), (1, "pool", poolcheck.PoolScenario("C16"))])
 
 
 def _fut():
@@ -67,7 +74,7 @@ def _fut():
 
     def run(tier, seed, budget_s, jobs):
         return runner.run_check(
-            futcheck.FutScenario, "future", "C16", "C16", tier, seed, budget_s, jobs,
+            _c16_multi, "future+pool", "C16", "C16", tier, seed, budget_s, jobs,
             level="exploration", rule=RULE_FUT,
             assumptions=[
                 "small-scope: one future, 2-4 threads, at most ~5 operations per thread",
@@ -77,7 +84,8 @@ def _fut():
             ],
             real_components=["jsonrpclib.threadpool.FutureResult / EventData - real code, line-level pre-emption"],
             stub_components=STUB_POOL,
-            required_probes=["set_callback_overlapped_completion", "callback_registered_after_completion",
+            required_probes=["family_future", "family_pool", "callback_on_pooled_future_invoked",
+                             "set_callback_overlapped_completion", "callback_registered_after_completion",
                              "callback_registered_before_completion", "raising_callback_invoked",
                              "result_timeout", "result_waited_for_completion", "done_false_seen"])
 
@@ -100,7 +108,7 @@ def _fut_scn(body):
     return futcheck.FutScenario()
 
 
-SCENARIOS = {"pool": _pool_scn, "future": _fut_scn}
+SCENARIOS = {"pool": _pool_scn, "future": _fut_scn, "future+pool": _c16_multi}
 
 
 def _fam_pool(focus):
@@ -119,7 +127,7 @@ def _fam_fut():
 
 
 # check id -> scenario factory, as used by the determinism self-test
-FAMILY = {"C09": _fam_pool("C09"), "C10": _fam_pool("C10"), "C11": _fam_pool("C11"), "C16": _fam_fut}
+FAMILY = {"C09": _fam_pool("C09"), "C10": _fam_pool("C10"), "C11": _fam_pool("C11"), "C16": _c16_multi}
 
 
 # ---------------------------------------------------------------------------
@@ -158,12 +166,13 @@ def _c12():
 
     def run(tier, seed, budget_s, jobs):
         return runner.run_check(
-            syscheck.C12Scenario, "system-c12", "C12", "C12", tier, seed, budget_s, jobs,
+            lambda: syscheck.C12Scenario(tier), "system-c12", "C12", "C12", tier, seed, budget_s, jobs,
             level="exploration", rule=RULE_SYS, assumptions=ASSUME_SYS,
             real_components=REAL_SYS, stub_components=STUB_SYS,
             required_probes=["lifecycle_serve", "lifecycle_never-served", "lifecycle_shutdown-inflight", "lifecycle_handle-loop",
                              "server_plain", "server_pooled", "server_pooled-user", "family_unix", "family_tcp",
-                             "two_methods_executing_at_once", "shutdown_with_request_in_flight", "invalid_body_sent"])
+                             "two_methods_executing_at_once", "shutdown_with_request_in_flight", "invalid_body_sent",
+                             "client_died_mid_body", "client_aborted_connection", "shared_request_and_notification_pool"])
 
     return run
 
@@ -174,7 +183,8 @@ REGISTRY["C12"] = {"budget": {"quick": 60, "thorough": 1200}, "run": _c12()}
 def _c12_scn(body):
     from . import syscheck
 
-    return syscheck.C12Scenario()
+    a = (body or {}).get("scenario_args") or {}
+    return syscheck.C12Scenario(a.get("tier", "quick"))
 
 
 SCENARIOS["system-c12"] = _c12_scn
